@@ -2,9 +2,12 @@
 
 package sim
 
+import "verif/simkit"
+
 const yieldBuilt = false
 
 type yieldState struct{}
 
-func installYield(seed uint64) *yieldState      { return nil }
-func (st *yieldState) stop() (fired, sites int) { return 0, 0 }
+func installYield(seed uint64) *yieldState                        { return nil }
+func installYieldParked(sim *simkit.Sim, seed uint64) *yieldState { return nil }
+func (st *yieldState) stop() (fired, sites int)                   { return 0, 0 }
